@@ -34,12 +34,16 @@ SPECS = {
         ["g", "x"],
     ),
     "no_keys": (["g", "w", "y"], {"g": "str", "w": "int", "y": "float"}, inputs.E_ROWS, []),
+    # the left key x is joined to the right column k, while the right table also has a (non-key) column x:
+    # x and g are shared columns that are not same-name key pairs, so both are coalesced left then right
+    "left_key_is_right_column": (["g", "k", "x"], {"g": "str", "k": "int", "x": "int"}, [("a", 1, 7), ("a", 2, None), (None, 1, 8), ("c", 3, 9)], [["x", "k"]]),
 }
 SPECS_Q_ROWS = {
     "same_key": inputs.E_ROWS_Q,
     "renamed_key": inputs.E_ROWS_Q,
     "two_keys": [("a", 1, None), (None, 2, 2.0), ("a", None, 1.0)],
     "no_keys": inputs.E_ROWS_Q,
+    "left_key_is_right_column": [("a", 1, 7), ("a", 2, None), (None, 1, 8)],
 }
 JOINTYPES = ["INNER", "LEFT", "RIGHT", "FULL", "CROSS"]
 
@@ -107,7 +111,7 @@ DEV_BACKEND = {"pandas": "pandas", "polars_eager": "polars", "polars_lazy": "pol
 def sql_raise_finding(bk, res, spec, jt):
     """narrow matchers for listed findings whose symptom is a refusal to translate"""
     if bk == "sqlite" and res[0] == "raise" and res[1] == "AssertionError" and jt == "FULL":
-        if spec == "renamed_key":
+        if spec in ("renamed_key", "left_key_is_right_column"):
             return "sqlite.full_join_needs_same_key_names"
         if spec == "no_keys":
             return "sqlite.full_join_needs_keys"
@@ -174,7 +178,7 @@ def run(tier):
     ]
     return run.finish(
         exhaustive=True,
-        rule=f"5 join types x 4 key specifications (CROSS only without keys) x result-column selections (all, each single column, key+shared) x all pairs of multisets of <= {cfg['kl']} left rows and <= {cfg['kr']} right rows over the row alphabets, on 5 executors",
+        rule=f"5 join types x 5 key specifications (CROSS only without keys) x result-column selections (all, each single column, key+shared) x all pairs of multisets of <= {cfg['kl']} left rows and <= {cfg['kr']} right rows over the row alphabets, on 5 executors",
     )
 
 
